@@ -214,6 +214,8 @@ class Spec:
                 n = len(kids)
                 for i in range(n):
                     out.append(("del", ci, i))
+                if n:
+                    out.append(("del", ci, -1))
                 if n >= 2:
                     out.append(("delslice", ci, None, 1, None))
                     out.append(("delslice", ci, 1, None, None))
